@@ -20,6 +20,8 @@ IP_TEXT = [M_IP + "IpAnonymizer._is_mask", M_IP + "IpAnonymizer.should_anonymize
 IP_DUMP = [M_IP + "_BaseIpAnonymizer.dump_to_file@v4", M_IP + "_BaseIpAnonymizer.dump_to_file@v6"]
 IP_UNDO = [M_IP + "_BaseIpAnonymizer.deanonymize", M_IP + "_BaseIpAnonymizer._deanonymize_bits"]
 
+from contracts import regex_obl as _ro   # noqa: E402
+
 PROPS = {
     "C01": dict(
         level="proof",
@@ -104,5 +106,61 @@ PROPS = {
              "and adds at most one line per entry.",
         note="as C01 plus E-dict-iteration, E-ipaddress (str of an address is injective: assumed, not used in the "
              "proof obligations), E-os (write appends to the file only)",
+    ),
+    "C06": dict(
+        level="other",
+        lemmas=[],
+        functions=[M_IP + "_anonymize_match@v4", M_IP + "_anonymize_match@v6",
+                   M_IP + "anonymize_ip_addr@v4", M_IP + "anonymize_ip_addr@v6", M_IP + "IpAnonymizer.should_anonymize",
+                   M_IP + "IpAnonymizer._is_mask"],
+        generators=[_ro.gen_ipv4, _ro.gen_ipv6],
+        standins=[("rt_text", "C06")],
+        design_ref="7/C06",
+        technique="regular-language obligations generated from the real IPv4/IPv6 patterns (CPython's own regex parser -> "
+                  "SMT RegLan, decided by z3) against spec languages written from the statement; contract on "
+                  "_anonymize_match for the replacement text",
+        text="Pinned token context, body within the token alphabet and language equivalence of the real patterns with "
+             "independent spec languages (dotted quad with leading zeros; RFC 4291 forms) are decided for all strings; "
+             "with the assumed scanning contract of re.sub this gives: a standalone token is replaced iff it is a valid "
+             "address, by the canonical text of its image.  The IPv4-style-tail sub-claim fails on the real pattern "
+             "(known finding, witness ::ffff:1.2.3.4).",
+        note="E-resub (re.sub scans left to right, first alternative that succeeds, look-arounds on the original text) "
+             "is assumed and validated only by the bounded stand-in; E-ipaddress; E-dropzeros",
+    ),
+    "C11": dict(
+        level="proof",
+        lemmas=[],
+        functions=[M_SI + "AsNumberAnonymizer._generate_as_number_replacement"],
+        generators=[_ro.gen_as_regex],
+        standins=[("rt_text", "C11")],
+        design_ref="7/C11",
+        technique="deductive verification of _generate_as_number_replacement against the four block limits of the "
+                  "statement (linear integer arithmetic, md5 uninterpreted) + regular-language obligations on the real "
+                  "regex template (digit-pinned context)",
+        text="For every digit string up to 4294967295 and every hash value the replacement lies in the same block and "
+             "is a function of salt and number; ValueError exactly above the range; the regex template matches exactly "
+             "maximal digit runs equal to a listed number.",
+        note="E-md5, E-hex, E-resub; as_numbers is a non-empty list of digit strings (an empty list through the library "
+             "API is outside the stated precondition)",
+    ),
+    "C18": dict(
+        level="other",
+        lemmas=[],
+        functions=[M_JS + "_gap", M_JS + "_nibble", M_JS + "_fixedc", M_JS + "_gap_encode",
+                   M_JS + "juniper_nonrandom_encrypt"],
+        generators=[_ro.gen_juniper_valid],
+        standins=[("rt_text", "C18")],
+        design_ref="7/C18",
+        technique="deductive per-group round-trip proof on the real _gap_encode (all 7 ENCODING rows, all code points "
+                  "0..255, all previous characters), exception-freedom and shape of juniper_nonrandom_encrypt for every "
+                  "salt, regular-language obligations on VALID; decrypt loop and whole-string round trip by a bounded "
+                  "run-time check",
+        text="Proved: each group produced by _gap_encode decodes to its character and stays in the alphabet (the "
+             "arithmetic core: gap offsets, % 65, % 256, table contents); encrypt raises nothing for any salt string and "
+             "yields $9$ + salt character + groups; VALID is exactly $9$ + at least four alphabet characters anchored at "
+             "the very end.  NOT proved (bounded only): the loop-level composition decrypt(encrypt(p, s)) == p and that "
+             "decrypt raises only ValueError.",
+        note="the decrypt loop invariant (characters stay in the alphabet under slicing, positional decoding) did not "
+             "discharge within budget with z3/cvc5 (see DESIGN.md); E-resub for re.search",
     ),
 }
